@@ -137,11 +137,12 @@ class Case(object):
         self.nsteps = 0
         self.finished = False
         self.failed = False
+        self.resources = []   # extra Index objects (twins) destroyed with the case
         self.state = {}       # property-private per-case state
         try:
             prop.begin(self)
         except BaseException:
-            self.idx.destroy()
+            self.destroy()
             raise
 
     def config_json(self):
@@ -202,11 +203,20 @@ class Case(object):
                 nt = self.prop.nontrivial(self)
                 self.ctx.record_case(self.ops, self.flags, nt, self.prop.sample(self))
         finally:
-            self.idx.destroy()
+            self.destroy()
+
+    def destroy(self):
+        self.idx.destroy()
+        for r in self.resources:
+            try:
+                r.destroy()
+            except Exception:
+                pass
+        self.resources = []
 
     def abort(self):
         self.finished = True
-        self.idx.destroy()
+        self.destroy()
 
 
 class Prop(object):
@@ -218,6 +228,7 @@ class Prop(object):
     MODES = ("url", "raw", "mixed")
     LONG_BIAS = 0.25
     BACKENDS = ("file",)
+    OVERWRITE = (True,)
     WITH_RULES = True
     WEIGHTS = {}
     # (cases per shard, steps per case)
@@ -290,7 +301,7 @@ def make_machine(prop, ctx):
         @initialize(data=st.data())
         def init(self, data):
             v = data.draw(vocab(modes=prop.MODES, long_bias=prop.LONG_BIAS))
-            cfg = data.draw(config_strategy(v, backends=prop.BACKENDS, with_rules=prop.WITH_RULES))
+            cfg = data.draw(config_strategy(v, backends=prop.BACKENDS, with_rules=prop.WITH_RULES, overwrite=prop.OVERWRITE))
             self.case = Case(prop, ctx, cfg, v)
 
         @rule(data=st.data())
@@ -337,7 +348,7 @@ def replay(prop, ctx, config_json, ops_json, record=False):
         prop.end(case)
     finally:
         case.finished = True
-        case.idx.destroy()
+        case.destroy()
     return case
 
 
